@@ -230,6 +230,15 @@ package anthropic
 //@   ensures old(evBroken) ==> evBroken
 //@   ensures !evBroken ==> (old(argsOut) == old(argsIn) ==> argsOut == argsIn)
 //@   ensures streamInv(state)
+// dispatch (C13: the deltas reproduce the backend's text): a line is skipped only for the stated reasons, text goes to
+// handleContentDelta verbatim, tool calls to handleToolCallsDelta, and nothing that carries either falls through
+//@   at return 1 assert !hasPrefix(line, "data: ") && textOut == old(textOut) && argsOut == old(argsOut)
+//@   at return 4 assert !(typeis(chunk["choices"], "[]interface{}") && len(blocksOf(chunk["choices"])) > 0)
+//@   at return 5 assert !isObj(choices[0])
+//@   at return 6 assert !isObj(choice["delta"])
+//@   at call handleContentDelta 1 assert content == strOf(delta["content"]) && content != ""
+//@   at call handleToolCallsDelta 1 assert strOf(delta["content"]) == "" && typeis(delta["tool_calls"], "[]interface{}")
+//@   at return 9 assert strOf(delta["content"]) == "" && !typeis(delta["tool_calls"], "[]interface{}") && textOut == old(textOut) && argsOut == old(argsOut)
 
 //@ func (t *Translator) transformStreamingSync
 //@   property C13 C20
